@@ -82,6 +82,9 @@ def install(I):
     I.overrides['@' + STR + 'C2IS3_EEPKcRKS3_'] = lambda I, s, cstr, alloc: s_init_empty(I, s)
     I.overrides['@_ZStplIcSt11char_traitsIcESaIcEENSt7__cxx1112basic_stringIT_T0_T1_EEOS8_PKS5_'] = lambda I, ret, lhs, rhs: s_init_empty(I, ret)
     I.overrides['@_ZStplIcSt11char_traitsIcESaIcEENSt7__cxx1112basic_stringIT_T0_T1_EEPKS5_OS8_'] = lambda I, ret, lhs, rhs: s_init_empty(I, ret)
+    # std::to_string(integer): only used to build exception messages -> empty string (formatting is never the subject)
+    for sfx in 'ilxjmy':
+        I.overrides['@_ZNSt7__cxx119to_stringE' + sfx] = lambda I, ret, v: s_init_empty(I, ret)
     for n in ('_ZNSt11range_errorC2ERKNSt7__cxx1112basic_stringIcSt11char_traitsIcESaIcEEE', '_ZNSt11range_errorD2Ev',
               '_ZNSt11logic_errorC1EPKc', '_ZNSt11logic_errorD1Ev', '_ZNSt12length_errorC1EPKc', '_ZNSt12length_errorD1Ev',
               '_ZNSt13runtime_errorC2EPKc', '_ZNSt13runtime_errorD2Ev', '_ZNSt16invalid_argumentC1EPKc', '_ZNSt16invalid_argumentD1Ev',
